@@ -302,7 +302,7 @@ def flat_stream(tier, seed):
     cases = []
     for i in range(n):
         rng = random.Random('C18f-%d-%d' % (seed, i))
-        c = flat.gen_case(rng, malformed=False, p_unknown=0.0)
+        c = flat.gen_case(rng, malformed=False, p_unknown=0.0, p_build=0.4)
         for s, d in c['machine']['states']:
             d['final'] = rng.random() < 0.6
         if not c['machine']['on_final']:
